@@ -1,6 +1,6 @@
 --------------------------------- MODULE Denote ---------------------------------
 (* Dispatch from an operation event to its reference meaning.                    *)
-EXTENDS Views, Select, Broadcast, Slice, Ufunc, Compare, TLC
+EXTENDS Views, Select, Broadcast, Slice, Ufunc, Compare, Linalg, TLC
 
 Operand(e, j) == IF j > Len(e.shapes) THEN Nothing
                  ELSE IF "data" \in DOMAIN e THEN [ok |-> TRUE, shape |-> e.shapes[j], elems |-> e.data[j]]
@@ -88,6 +88,17 @@ Expect(e) ==
       \* C18 (operands are given as values of the comparison universe)
       [] e.op = "isequal" -> [ok |-> TRUE, shape |-> <<>>, elems |-> <<Bool(IsEqual(e.args.a, e.args.b))>>]
       [] e.op = "isclose" -> [ok |-> TRUE, shape |-> <<>>, elems |-> <<Bool(IsClose(e.args.a, e.args.b, e.args.eps4))>>]
+      \* C16
+      [] e.op \in {"matmul", "matmulv2"} -> Matmul(a, Operand(e, 2))
+      [] e.op = "dot" -> DotProduct(a, Operand(e, 2))
+      [] e.op = "inner" -> Inner(a, Operand(e, 2))
+      [] e.op = "outerp" -> OuterProduct(a, Operand(e, 2))
+      [] e.op = "vecdot" -> Vecdot(a, Operand(e, 2))
+      [] e.op = "kron" -> Kron(a, Operand(e, 2))
+      [] e.op = "tensordot" -> IF e.args.int THEN Tensordot(a, Operand(e, 2), e.args.n)
+                               ELSE TensordotAxes(a, Operand(e, 2), NormAxes(e.args.axa, Len(a.shape)), NormAxes(e.args.axb, Len(e.shapes[2])))
+      [] e.op = "trace" -> LET dg == Diagonal(a, e.args.offset, e.args.axis1, e.args.axis2) IN
+                           IF ~dg.ok THEN Nothing ELSE Reduce("add", dg, <<<<Len(dg.shape) - 1>>>>, <<0>>, FALSE)
       \* C05
       [] e.op = "slice" -> SliceView(a, e.args.parts)
       \* C06
